@@ -231,7 +231,21 @@ def r20_6(ctx):
         module and the request never reaches the rebuild."""
     unit = ctx.prog.unit(CP)
     n_rm = n_mk = 0
-    for fi in ctx.prog.funcs_in(CP, include_nested=True):
+    # the build path: compile_cython_module and what it (transitively) calls inside compile.py -- a maintenance function that
+    # empties the cache on purpose is not part of it
+    allf = {f.name: f for f in ctx.prog.funcs_in(CP, include_nested=True)}
+    on_path, todo = set(), ['compile_cython_module', '_compile_cython_module_nocache']
+    while todo:
+        nm = todo.pop()
+        if nm in on_path or nm not in allf:
+            continue
+        on_path.add(nm)
+        for c in ast.walk(allf[nm].node):
+            if isinstance(c, ast.Call):
+                last = (call_name(c) or '').split('.')[-1]
+                if last in allf:
+                    todo.append(last)
+    for fi in [f for f in ctx.prog.funcs_in(CP, include_nested=True) if f.name in on_path or (f.outer is not None)]:
         ps = PathState(fi.node)
         # names bound by iterating a listing of the cache directory
         listed = set()
